@@ -117,17 +117,20 @@ int main(int argc, char** argv) {
 _tsan = {}
 
 
-def tsan_binary(imported=False, ndebug=False):
-    key = (imported, ndebug)
+def tsan_binary(imported=False, ndebug=False, split=False):
+    """split=True: the module is translated with -f 1 (documented separate compilation: every function in a file of its own, each
+    including the runtime header), so that grow, size and the data accesses of one memory are compiled in different C files"""
+    key = (imported, ndebug, split)
     if key in _tsan and os.path.exists(_tsan[key]):
         return _tsan[key]
     d = cexec.new_dir('tg')
-    tr = cexec.translate(wasm.encode(sched.harness_module(imported)), d, 'm', (), 'plain')
+    tr = cexec.translate(wasm.encode(sched.harness_module(imported)), d, 'm', ('-f', '1') if split else (), 'plain')
     if tr.rc != 0:
         raise cexec.InfraError('translate failed')
+    parts = sorted(f for f in os.listdir(d) if f.endswith('.c') and f != 'm.c')
     open(os.path.join(d, 'drv.c'), 'w').write(TSAN_DRIVER)
     cmd = ['clang', '-O1', '-g', '-w', '-fsanitize=thread'] + (['-DVF_IMPORTED_MEMORY=%d' % sched.MAXPAGES] if imported else []) + (['-DNDEBUG'] if ndebug else []) + ['-DWASM_THREADS_PTHREADS', '-I', os.path.join(cexec.REPO, 'w2c2'),
-           '-I', os.path.join(cexec.REPO, 'futex'), 'drv.c', 'm.c'] + [os.path.join(cexec.REPO, 'futex', f) for f in cexec.FUTEX_SRCS] + \
+           '-I', os.path.join(cexec.REPO, 'futex'), 'drv.c', 'm.c'] + parts + [os.path.join(cexec.REPO, 'futex', f) for f in cexec.FUTEX_SRCS] + \
         ['-o', 'tg', '-lpthread', '-lm']
     r = cexec.run(cmd, cwd=d)
     if r.returncode != 0:
@@ -137,7 +140,7 @@ def tsan_binary(imported=False, ndebug=False):
 
 
 def run_tsan(case):
-    exe = tsan_binary(bool(case.get('imported')), bool(case.get('ndebug')))
+    exe = tsan_binary(bool(case.get('imported')), bool(case.get('ndebug')), bool(case.get('split')))
     env = dict(os.environ)
     env['TSAN_OPTIONS'] = 'exitcode=96:report_thread_leaks=0'
     try:
@@ -348,6 +351,8 @@ def task(wid, seed, params):
             ch = Chooser(seed * 1000003 + ci)
             case = {'kind': 'tsan', 'T': ch.pick((2, 4, 6, 8)), 'N': ch.pick((200, 2000, 20000)), 'imported': bool(ci % 2),
                     'ndebug': bool((ci // 2) % 2)}
+            if (ci + wid) % 3 == 0:
+                case['split'] = True
             try:
                 bad = run_tsan(case)
             except cexec.InfraError as e:
@@ -355,6 +360,8 @@ def task(wid, seed, params):
                 break
             res['evaluations'] += 1
             res['classes']['tsan_run'] += 1
+            if case.get('split'):
+                res['classes']['tsan_separately_compiled_functions'] += 1
             res['classes']['tsan_imported_memory' if case['imported'] else 'tsan_defined_memory'] += 1
             res['nontrivial'].add(f1.hx(repr(case)))
             if bad and not res['violations']:
